@@ -167,10 +167,11 @@ class C09(PropBase):
             exc = None
         except Exception as ex:  # noqa: BLE001
             res, exc = None, type(ex).__name__
+            exc_site = "/empty-event-from-line-2" if (exc == "ValueError" and "empty list for the event" in str(ex) and case["kind"] == "cond") else ""
         code = (2 + GE.EXC.get(exc, 9)) if exc else (1 if res is None else 0)
         violation, key = None, "C09/ok"
         if exc is not None:
-            violation, key = f"{case['kind']} query raised {exc} on an input that passes validation", f"C09/crash/{exc}"
+            violation, key = f"{case['kind']} query raised {exc} on an input that passes validation", f"C09/crash/{exc}{exc_site}"
         elif res is not None and len(g["bid"]) <= 3:
             violation, key = self.semantic(case, g, res)
         out_e = GE.c_expr(res.expression) if res is not None else "EOne"
